@@ -478,6 +478,8 @@ class Evaluator:
         if k == "assign":
             self.ev(x, st)
             return self.lv(a[1], st)
+        if k == "callx":
+            return self.lv(a[0], st)
         if k == "call":
             v = self.ev(x, st)
             # aggregate rvalue used as lvalue (member of returned struct): park it in the frame
@@ -572,6 +574,9 @@ class Evaluator:
                 raise ExtractionBreak("mathvc(real): float->int conversion")
             self.in_range(v, t, "conversion")
             return tonum(v)
+        if k == "callx":
+            # call whose callee may throw: the math back end evaluates the normal path only
+            return self.ev(a[0], st)
         if k == "call":
             args = [self.ev(y, st) for y in a[1]]
             return self.call(a[0], args, st)
